@@ -81,7 +81,12 @@ func (c DateCodec) Omit(p unsafe.Pointer) bool {
 func (c DateCodec) Write(w *avro.WriteBuf, p unsafe.Pointer) {
 	t := *(*time.Time)(p)
 	// TODO: wrangle this into Time.AppendFormat?
-	day := int32(t.Unix() / (60 * 60 * 24))
+	secs := t.Unix()
+	day := int32(secs / (60 * 60 * 24))
+	if secs%(60*60*24) < 0 {
+		// round towards the earlier day for times before 1970
+		day--
+	}
 
 	c.Int32Codec.Write(w, unsafe.Pointer(&day))
 }
